@@ -63,6 +63,11 @@ def _worker(job):
         sh = verify.source_hash(src, t.qualname.split("+")[0]) if not t.qualname.startswith("spec:") else None
         return dict(task=name, qualname=t.qualname, kind=t.kind, results=res, undecided=und, stats=st, source=sh, crash=None, wall=time.time() - t0)
     except Exception as e:
+        if isinstance(e, RecursionError) or "RecursionError" in str(e) or "recursion" in str(e).lower():
+            # terms too deep for the Python bindings of the solver: a limit of the tool on this tree, not a verdict and not a crash
+            return dict(task=name, qualname=getattr(locals().get("t"), "qualname", "?"), kind=getattr(locals().get("t"), "kind", "?"), results=[],
+                        undecided=[dict(task=name, reason="OutOfReach: recursion limit (terms too deep for the solver bindings)")], stats={}, source=None, crash=None,
+                        wall=time.time() - t0)
         return dict(task=name, qualname="?", kind="?", results=[], undecided=[], stats={}, source=None,
                     crash=f"{type(e).__name__}: {e}\n{traceback.format_exc(limit=8)}", wall=time.time() - t0)
 
@@ -94,7 +99,7 @@ def property_config(pid, tasks):
     P["C01"] = dict(decisive=select(tasks, ("RT.",), props=["C01"]), chain=select(tasks, ("W.", "R3.")),
                     harness=dict(checks=["roundtrip", "history"], kinds=["RT.write", "RT.decode", "RT.content", "RT.reencode"]))
     P["C02"] = dict(decisive=select(tasks, ("SW.", "RT."), props=["C02"]), chain=[],
-                    harness=dict(checks=["roundtrip", "history", "size_nonfinite"], kinds=["RT.size", "RT.consumed"], capture=["CAP.consumed", "CAP.size", "CAP.decode"]))
+                    harness=dict(checks=["roundtrip", "history", "size_nonfinite", "size_overlong"], kinds=["RT.size", "RT.consumed"], capture=["CAP.consumed", "CAP.size", "CAP.decode"]))
     P["C05"] = dict(decisive=select(tasks, ("SEG.",) + tuple(f"RT.{t}" for t in TRACKS) + tuple(f"W.{t}" for t in TRACKS) + tuple(f"B.{t}" for t in TRACKS)),
                     chain=[], harness=dict(checks=["gaps", "gaps_block", "history"], kinds=["C05"], layouts=list(TRACKS)))
     P["C06"] = dict(decisive=select(tasks, ("W.", "B."), props=["C06"]), chain=[],
@@ -217,9 +222,15 @@ def run_harness(pid, cfg, seed, tier, src, layouts=None, deep=False):
         fails += fl
     for extra in h.get("extra", []):
         mod = __import__(extra[0], fromlist=[extra[1]])
-        st, fl = getattr(mod, extra[1])(seed, t, os.path.dirname(src))
-        standins.append(st)
-        fails += fl
+        # thorough: the same suite under several seeds (other generated objects, other histories)
+        for sd in (range(seed, seed + 5) if t == "thorough" else (seed,)):
+            st, fl = getattr(mod, extra[1])(sd, t, os.path.dirname(src))
+            if sd != seed:
+                st = dict(st, what=st.get("what", "") + f" (seed {sd})")
+            standins.append(st)
+            fails += fl
+            if fl:
+                break
     return standins, fails
 
 
@@ -240,7 +251,7 @@ def replay_file(pid, path, src):
     elif rec["kind"] == "capture":
         fl = capture.check_capture(os.path.dirname(src), 0)[1]
     elif rec["kind"] in ("block", "item", "track", "trackblock", "large"):
-        fl = suites.run_recipe(rec, data["failing_input"].get("checks", ["write", "build", "roundtrip", "gaps", "gaps_block", "history", "size_nonfinite"]))
+        fl = suites.run_recipe(rec, data["failing_input"].get("checks", ["write", "build", "roundtrip", "gaps", "gaps_block", "history", "size_nonfinite", "size_overlong"]))
     else:
         mod = __import__(rec["module"], fromlist=["replay"])
         fl = mod.replay(rec, os.path.dirname(src))
